@@ -472,7 +472,7 @@ pub fn gen_wio(rng: &mut Rng) -> RawCase {
             }
             format!("{}({})", f, a.join(", "))
         };
-        let pick = if rng.chance(1, 30) { 40 + rng.below(6) } else { let x = rng.below(52); if x >= 40 { x + 6 } else { x } };
+        let pick = if rng.chance(1, 30) { 40 + rng.below(6) } else { let x = rng.below(55); if x >= 40 { x + 6 } else { x } };
         let l = match pick {
             // block headers that fail: resuming must not enter the block half way
             50 => format!("FOR {} = 1 TO 1 / Z0%\nPRINT {}\nNEXT", rng.pick(&["A%", "C!"]), i1),
@@ -482,6 +482,9 @@ pub fn gen_wio(rng: &mut Rng) -> RawCase {
             54 => "Cnt".to_string(),
             55 => "Outer 2".to_string(),
             56 => format!("WHILE {} / Z0% = 1\nPRINT \"w\"\nEND\nWEND", i1),
+            58 => format!("PRINT (Nope({})); AR%(Nope2({}))", i1, i2),
+            59 => format!("SELECT CASE {}\nCASE 1\nPRINT \"one\"\nCASE {} / Z0%\nPRINT \"two\"\nCASE ELSE\nPRINT \"else\"\nEND SELECT", i1, i2),
+            60 => format!("OPEN \"R.DAT\" FOR RANDOM AS #4 LEN = {}\nFIELD #4, {} AS E$, {} AS F$\nGET #4, 1\nPUT #4, 2\nCLOSE #4", rng.pick(&["4", "8", "0", "1"]), rng.pick(&["2", "4", "8"]), rng.pick(&["2", "6", "1"])),
             57 => format!("DO\nPRINT \"d\"\nA% = A% + 1\nLOOP UNTIL A% / Z0% > 1 OR A% > 3"),
             46 => format!("POKE {}, {}", i1, i2),
             47 => format!("DEF SEG = {}", rng.pick(&["0", "0", "4096", "4097", "A%"])),
